@@ -163,7 +163,18 @@ def run(ctx):
     ok = len(al) == 1 and rj.canon(al[0]["rhs"], subst=False).startswith("__ckd_calloc__(maxlen, 1,") and all(rj.line(s["node"]) < rj.line(al[0]["node"]) for s in before + between) and rj.line(al[0]["node"]) < rj.line(tops[1])
     ctx.check(e1, ok, key(rj, "allocation"), rj.where(rj.root), "the buffer is not allocated with the counted size after the sizing pass")
     wfh = [c for c in rj.calls("format_hyp") if rj.canon(rj.args(c)[0], subst=False) != "0"]
-    ok = len(wfh) == 1 and [rj.canon(a, subst=False) for a in rj.args(wfh[0])] == ["d->json_result", "len", "d", "start", "duration"]
+    def is_buffer(n_):
+        """d->json_result itself, or a local last assigned from it (also in a chained `p = d->json_result = alloc`)"""
+        if rj.canon(n_) == "d->json_result":
+            return True
+        j_ = rj.strip(n_)
+        if rj.k(j_) == "DeclRef":
+            dv = rj.rd.def_values(j_)
+            if len(dv) == 1 and dv[0][1] not in (None, "uninit", "param"):
+                v_ = rj.strip(dv[0][1])
+                return rj.k(v_) == "Assign" and rj.canon(rj.ch(v_)[0], subst=False) == "d->json_result"
+        return False
+    ok = len(wfh) == 1 and is_buffer(rj.args(wfh[0])[0]) and [rj.canon(rj.args(wfh[0])[1])] + [rj.canon(a, subst=False) for a in rj.args(wfh[0])[2:]] == ["maxlen", "d", "start", "duration"]
     ctx.check(e1, ok, key(rj, "prefix-write"), rj.where(rj.root), "writing prefix does not call format_hyp with the buffer and the same arguments as the sizing pass")
     mc = rj.calls("memcpy")
     ctx.check(e1, len(mc) == 1 and [rj.canon(a, subst=False) for a in rj.args(mc[0])] == ["ptr", '",\\"w\\":["', "6"], key(rj, "list-open"), rj.where(rj.root), "the list opener is not the 6 bytes counted")
@@ -206,13 +217,23 @@ def run(ctx):
     ctx.check(e2, its == ["alignment_iter_children(itor)", "alignment_iter_next(pitor)", "alignment_iter_next(sitor)"] or its == sorted(["alignment_iter_children(itor)", "alignment_iter_next(pitor)", "alignment_iter_next(sitor)", "alignment_iter_children(pitor)"]), key(sa, "iterators"), sa.where(sa.root), "nested lists are walked as %s" % its)
     sv = [v for v in sa.find("Var") if sa.nodes[v]["name"] == "sitor" and sa.ch(v)]
     ctx.check(e2, len(sv) == 1 and sa.canon(sa.ch(sv[0])[0], subst=False) == "alignment_iter_children(pitor)" and paths.guarded(sa, sv[0], lambda fn, cc, pol: paths.cond_atoms(fn, cc, pol, subst=False) == ("state_align", True)), key(sa, "state-level"), sa.where(sa.root), "state lists are not the children of the phone under `state_align`")
-    # format_seg: snprintf + '}'
+    # format_seg: the formatted text and one closing brace, counted always and written when there is a buffer
+    # (path by path over values, symx.run_paths)
+    from .. import symx
     fs = fns["format_seg"]
-    sn = fs.calls("snprintf")
-    ok = len(sn) == 1 and [fs.canon(a, subst=False) for a in fs.args(sn[0])][:2] == ["outptr", "len"]
-    inc = [s for s in paths.stores(fs) if s["path"] == "len" and s["op"] == "++"]
-    wr = [s for s in paths.stores(fs) if s["path"] == "*(outptr++)" and paths.is_const(fs, s["rhs"], 125)]
-    ctx.check(e2, ok and len(inc) == 1 and len(wr) == 1 and paths.guarded(fs, wr[0]["node"], lambda fn, cc, pol: paths.cond_atoms(fn, cc, pol, subst=False) == ("outptr", True)), key(fs, "closing"), fs.where(fs.root), "format_seg does not count and (when writing) emit exactly one closing brace after the formatted text")
+    OUT, LIM = fs.params[0][0], fs.params[1][0]
+    okc, npth = True, 0
+    for pt in symx.run_paths(fs, P):
+        npth += 1
+        sn = [c_ for c_ in pt.calls if c_[0] == "snprintf"]
+        if len(sn) != 1 or sn[0][1][:2] != [OUT, LIM] or pt.ret is None:
+            okc = False
+            continue
+        SN = lin.p_atom("snprintf(%s)" % ", ".join(sn[0][1]))
+        has = pt.atoms.get(("nz", OUT))
+        braces = [pth for (pth, v_, n_) in pt.stores if v_ == lin.p_const(125)]
+        okc = okc and pt.ret == lin.p_add(SN, lin.p_const(1)) and has is not None and braces == (["%s[%s]" % (OUT, lin.p_str(SN))] if has else [])
+    ctx.check(e2, okc and npth >= 2, key(fs, "closing"), fs.where(fs.root), "format_seg does not count and (when writing) emit exactly one closing brace after the formatted text")
 
     # ---- E3 escaping ----------------------------------------------------------------------------------------
     e3 = ctx.rule("TAINT.E3-escaping", "a string that comes from the dictionary, the model or the hypothesis is passed through a JSON escaping function before it is formatted with %s inside a string literal", floor=3)
@@ -271,26 +292,39 @@ def run(ctx):
 
     # ---- E4 provenance of values -----------------------------------------------------------------------------------
     e4 = ctx.rule("PROV.E4-values", "times are frame index / frame rate plus the offset, durations (ef + 1 - sf) / frate resp. duration / frate, probabilities the exponentiated accessor results of the same iterator; the frame rate comes from the configuration", floor=8)
+    # what reaches the conversions of each formatter, as values (symx.run_paths): temporaries, renamed locals
+    # and hoisted sub-expressions do not matter
+    def printed(fn_):
+        out = set()
+        calls_before = {}
+        for pt in symx.run_paths(fn_, P):
+            sn = [c_ for c_ in pt.calls if c_[0] == "snprintf"]
+            out.add(tuple(tuple(c_[1]) for c_ in sn))
+            for c_ in sn:
+                calls_before[tuple(c_[1])] = [(x_[0], tuple(x_[1])) for x_ in pt.calls[:pt.calls.index(c_)]]
+        return out, calls_before
     f = fns["format_seg"]
-    d = {s["path"]: f.canon(s["rhs"], subst=False) for s in paths.stores(f) if s["kind"] == "DeclRef" and s["rhs"] is not None}
-    ctx.check(e4, d.get("st") == "(((double)sf / frate) + utt_start)".replace("(double)", "") or d.get("st") == "((sf / frate) + utt_start)", key(f, "start"), f.where(f.root), "segment start time is `%s`" % d.get("st"))
-    ctx.check(e4, lin.poly(f, [s for s in paths.stores(f) if s["path"] == "dur"][0]["rhs"], subst=False) != {} and re.match(r"^\(\(\(1 \+ ef\) - sf\) / frate\)$", d.get("dur", "")) is not None, key(f, "duration"), f.where(f.root), "segment duration is `%s`, expected (ef + 1 - sf) / frate" % d.get("dur"))
-    ctx.check(e4, d.get("prob") == "logmath_exp(lmath, seg_iter_prob(seg, 0, 0))" and d.get("word") in ("seg_iter_word(seg)", "json_escape(seg_iter_word(seg))"), key(f, "accessors"), f.where(f.root), "segment probability / word are `%s` / `%s`" % (d.get("prob"), d.get("word")))
-    fr = f.calls("seg_iter_frames")
-    ctx.check(e4, len(fr) == 1 and [f.canon(a, subst=False) for a in f.args(fr[0])] == ["seg", "&sf", "&ef"], key(f, "frames"), f.where(f.root), "frames are not read from the same segment")
-    sn = f.calls("snprintf")
-    ctx.check(e4, len(sn) == 1 and [f.canon(a, subst=False) for a in f.args(sn[0])][3:6] == ["st", "dur", "prob"], key(f, "order"), f.where(f.root), "fields are not formatted in the order b, d, p")
+    pr, cb = printed(f)
+    one = len(pr) == 1 and len(list(pr)[0]) == 1
+    a_ = list(list(pr)[0][0]) if one else [None] * 7
+    ctx.check(e4, one and a_[3] == "(sf / frate) + utt_start", key(f, "start"), f.where(f.root), "segment start time is `%s`" % a_[3])
+    ctx.check(e4, one and a_[4] == "(1 + ef + -1*sf / frate)", key(f, "duration"), f.where(f.root), "segment duration is `%s`, expected (ef + 1 - sf) / frate" % a_[4])
+    ctx.check(e4, one and a_[5] == "logmath_exp(lmath, seg_iter_prob(seg, 0, 0))" and a_[6] in ("seg_iter_word(seg)", "json_escape(seg_iter_word(seg))"), key(f, "accessors"), f.where(f.root), "segment probability / word are `%s` / `%s`" % (a_[5], a_[6]))
+    ctx.check(e4, one and ("seg_iter_frames", ("seg", "&sf", "&ef")) in cb.get(tuple(a_), []), key(f, "frames"), f.where(f.root), "frames are not read from the same segment before they are formatted")
+    ctx.check(e4, one and len(a_) == 7, key(f, "order"), f.where(f.root), "fields are not formatted in the order b, d, p")
     f = fns["format_align_iter"]
-    d = {s["path"]: f.canon(s["rhs"], subst=False) for s in paths.stores(f) if s["kind"] == "DeclRef" and s["rhs"] is not None}
-    ctx.check(e4, d.get("word") in ("alignment_iter_name(itor)", "json_escape(alignment_iter_name(itor))") and d.get("score") == "alignment_iter_seg(itor, &start, &duration)" and d.get("st") == "((start / frate) + utt_start)" and d.get("dur") == "(duration / frate)" and d.get("prob") == "logmath_exp(lmath, score)", key(f, "values"), f.where(f.root), "alignment entry values are %s" % d)
-    sn = f.calls("snprintf")
-    ctx.check(e4, len(sn) == 1 and [f.canon(a, subst=False) for a in f.args(sn[0])][:2] == ["outptr", "maxlen"] and [f.canon(a, subst=False) for a in f.args(sn[0])][3:6] == ["st", "dur", "prob"], key(f, "order"), f.where(f.root), "fields are not formatted in the order b, d, p with the tracked remainder")
+    pr, cb = printed(f)
+    one = len(pr) == 1 and len(list(pr)[0]) == 1
+    a_ = list(list(pr)[0][0]) if one else [None] * 7
+    ctx.check(e4, one and a_[3:6] == ["(start / frate) + utt_start", "(duration / frate)", "logmath_exp(lmath, alignment_iter_seg(itor, &start, &duration))"] and a_[6] in ("alignment_iter_name(itor)", "json_escape(alignment_iter_name(itor))"), key(f, "values"), f.where(f.root), "alignment entry values are %s" % (a_[3:],))
+    ctx.check(e4, one and a_[:2] == [f.params[0][0], f.params[1][0]] and len(a_) == 7, key(f, "order"), f.where(f.root), "fields are not formatted in the order b, d, p with the tracked remainder")
     f = fns["format_hyp"]
-    d = {s["path"]: f.canon(s["rhs"], subst=False) for s in paths.stores(f) if s["kind"] == "DeclRef" and s["rhs"] is not None}
-    ctx.check(e4, d.get("hyp") in ("json_escape(decoder_hyp(decoder, 0))", "decoder_hyp(decoder, 0)"), key(f, "text"), f.where(f.root), "the text field is `%s`, not the hypothesis the public accessor returns for this result (a cached string can be stale)" % d.get("hyp"))
-    ctx.check(e4, d.get("prob") == "logmath_exp(lmath, decoder_prob(decoder))", key(f, "prob"), f.where(f.root), "utterance probability is `%s`" % d.get("prob"))
-    sn = f.calls("snprintf")
-    ctx.check(e4, len(sn) == 1 and [f.canon(a, subst=False) for a in f.args(sn[0])][:2] == ["outptr", "len"] and [f.canon(a, subst=False) for a in f.args(sn[0])][3:6] == ["start", "duration", "prob"], key(f, "order"), f.where(f.root), "fields are not formatted in the order b, d, p")
+    pr, cb = printed(f)
+    one = len(pr) == 1 and len(list(pr)[0]) == 1
+    a_ = list(list(pr)[0][0]) if one else [None] * 7
+    ctx.check(e4, one and a_[6] in ("json_escape(decoder_hyp(decoder, 0))", "decoder_hyp(decoder, 0)"), key(f, "text"), f.where(f.root), "the text field is `%s`, not the hypothesis the public accessor returns for this result (a cached string can be stale)" % a_[6])
+    ctx.check(e4, one and a_[5] in ("logmath_exp(lmath, decoder_prob(decoder))", "logmath_exp(decoder_logmath(decoder), decoder_prob(decoder))"), key(f, "prob"), f.where(f.root), "utterance probability is `%s`" % a_[5])
+    ctx.check(e4, one and a_[:2] == [f.params[0][0], f.params[1][0]] and a_[3:5] == [f.params[3][0], f.params[4][0]], key(f, "order"), f.where(f.root), "fields are not formatted in the order b, d, p")
     d = {s["path"]: rj.canon(s["rhs"], subst=False) for s in paths.stores(rj) if s["kind"] == "DeclRef" and s["rhs"] is not None}
     ctx.check(e4, d.get("frate") == 'config_int(decoder_config(d), "frate")' and re.match(r"^\(decoder_n_frames\(d\) / frate\)$", d.get("duration", "")) is not None, key(rj, "frate"), rj.where(rj.root), "frame rate / duration are `%s` / `%s`" % (d.get("frate"), d.get("duration")))
     fmts = set()
